@@ -12,8 +12,11 @@ TagsRS == {"returns", "since"}
 TagsR == {"returns"}
 NoFaults == {}
 AllFaults == {"unbal", "dbl", "empty", "stray", "kv", "unknown", "nocolon", "dupparam", "duptag", "returns2",
-              "paramlate", "pre", "codebefore", "codeafter", "oneline", "noident", "attrs", "opentext"}
+              "paramlate", "pre", "codebefore", "codeafter", "oneline", "noident", "attrs", "opentext", "depann", "deptag"}
+ParenFaults == {"unbal", "dbl", "empty", "stray"}
 KnownNone == {}
+KnownWPos == {"witness_validate_position_lost_on_continuation"}
+KnownWAction == {"witness_writer_action_identifier"}
 KnownC10 == {"writer_action_identifier"}
 KnownC11 == {"validate_position_lost_on_continuation"}
 \* export of the explored (model, layout) cases: states with pc = "done" are read from TLC's -dump
